@@ -148,4 +148,43 @@ func c05Linked(c *core.Ctx, idx int) {
 			return nil
 		})
 	}
+	// scripted end: a host with links is persisted again with no ids at all (an empty list, which reaches the persist
+	// context as "no list"): the links are gone from both sides
+	err = db.Update(nil, func(ctx boltz.MutateContext) error {
+		for _, sid := range []string{"s1", "s2"} {
+			if !liveSvc[sid] {
+				if err := sst.Store.Create(ctx, &schema.Ent{Id: sid, Typ: "svcs", V: map[string]any{"label": "l"}}); err != nil {
+					return err
+				}
+				liveSvc[sid] = true
+			}
+		}
+		ent := &schema.Ent{Id: "h1", Typ: "hosts", V: map[string]any{"label": "l", "svcs": []string{"s1", "s2"}}}
+		if _, ok := links["h1"]; ok {
+			return hst.Store.Update(ctx, ent, nil)
+		}
+		return hst.Store.Create(ctx, ent)
+	})
+	if err == nil {
+		err = db.Update(nil, func(ctx boltz.MutateContext) error {
+			return hst.Store.Update(ctx, &schema.Ent{Id: "h1", Typ: "hosts", V: map[string]any{"label": "n", "svcs": []string{}}}, nil)
+		})
+	}
+	c.Eval()
+	c.Count("strategy_written_empty_link_lists_over_existing_links", 1)
+	if err != nil {
+		c.Violationf("C05 strategy-written links: scripted update to the empty list failed", nil, "%v", err)
+		return
+	}
+	_ = db.View(func(tx *bbolt.Tx) error {
+		if got := hst.Links["svcs"].GetLinks(tx, "h1"); len(got) != 0 {
+			c.Violationf("C05 strategy-written links: the entity's link set is not the requested set after an update to the empty list", map[string]any{"host": "h1", "links_before": []string{"s1", "s2"}}, "host h1 still links %q", got)
+		}
+		for _, sid := range []string{"s1", "s2"} {
+			if got := sst.Links["hosts"].GetLinks(tx, sid); contains(got, "h1") {
+				c.Violationf("C05 strategy-written links: the other side does not mirror the entity's links after an update to the empty list", map[string]any{"svc": sid}, "svc %s still lists %q", sid, got)
+			}
+		}
+		return nil
+	})
 }
